@@ -265,9 +265,18 @@ func c13UpstreamInputs(c *fw.Ctx, i int, name string) []c13Input {
 				scripts = append(scripts, sq)
 			}
 		}
+		// the SETUP answer's Transport header cut at every offset (lal reads server_port / interleaved from it)
+		for _, full := range []string{"RTP/AVP/TCP;unicast;interleaved=0-1", "RTP/AVP/UDP;unicast;client_port=5000-5001;server_port=6000-6001", "RTP/AVP;unicast;server_port=6000-6001;ssrc=1"} {
+			for n := 1; n <= len(full); n++ {
+				sq := append([]string(nil), goodSeq...)
+				sq[2] = reply("200 OK", []string{"Session: 1234;timeout=60", "Transport: " + full[:n]}, "")
+				scripts = append(scripts, sq)
+			}
+		}
 		pk := c13RtpPackets(r)
 		for k, sq := range scripts {
 			sq := sq
+			k := k
 			stream := fmt.Sprintf("%s_rp%d", name, k)
 			out = append(out, c13Input{Class: "upstream/rtsp-pull-reply", Desc: fmt.Sprintf("rtsp origin script: %q", trunc(strings.Join(sq, "|"), 300)), Run: func(s *srv.Server) error {
 				done := make(chan struct{}, 2)
@@ -299,7 +308,9 @@ func c13UpstreamInputs(c *fw.Ctx, i int, name string) []c13Input {
 					done <- struct{}{}
 				})
 				before := stub.accepts()
-				startPull(s, "rtsp://"+stub.addr+"/live/"+stream, stream)
+				// lal pulls RTSP over TCP or UDP (rtsp_mode): the answers are read differently
+				body, _ := json.Marshal(map[string]interface{}{"url": "rtsp://" + stub.addr + "/live/" + stream, "stream_name": stream, "pull_timeout_ms": 1500, "pull_retry_num": 0, "auto_stop_pull_after_no_out_ms": -1, "rtsp_mode": k % 2})
+				srv.HttpPostJson(s.ApiAddr(), "/api/ctrl/start_relay_pull", string(body), 3*time.Second)
 				waitAccept(before)
 				select {
 				case <-done:
